@@ -115,7 +115,7 @@ def run(ctx, replay=None):
             flags = rng.choice([0, 1, 8, 9, 128, 256 | 512]) if not first else rng.choice([0, 1, 8])
             cfg = rng.choice([["filter 0 19 0"], ["filter 0 -1 0"], ["filter 0 -1 2", "filter 0 19 0"], []])
             # lazy store observation for every other behaviour: the recorder does not query (and thereby refresh) the stores before the first export
-            lines = (["reset 2", "option stores %d" % (2 if (k % 2 == 0 or first) else 1)] + nosupport(flags) + ["init 0", "synthetic 0 " + desc] + cfg + ["flags 0 %d" % flags, "load 0"]
+            lines = (["reset 2", "option stores %d" % (2 if (k % 2 == 0 or first) else 1)] + nosupport(flags) + ["init 0", c02.source_line(ctx, name, desc)] + c02.FAM_EXTRA.get(name, []) + cfg + ["flags 0 %d" % flags, "load 0"]
                      + special(c02.render(h, info[name], choices), rng) + matrix(ctx, rng, name, flags, thorough, k, first=first))
             k += 1
             behs.append("\n".join(lines) + "\n")
